@@ -132,6 +132,75 @@ def classic_cases(n: int, seed: int) -> list:
                   0.0 if all(abs(got[i]) <= math.pi + 1e-5 for i in (0, 1)) else 1.0)
     out.append(("Acrobot", {"VectorFieldIsGymnasiums": worst <= 1e-4, "TimeStepIsGymnasiums": abs(float(env.dt) - g.dt) < 1e-6,
                             "StateLimitsAreGymnasiums": lim <= 1e-4}, {"field_dev": worst, "limit_dev": lim}))
+
+    # ---- the same comparisons with NON-default physical parameters: lerax constructor arguments, the same values written into
+    # the attributes Gymnasium's step reads (its classic-control environments take no such arguments)
+    term_f = eqx.filter_jit(lambda env, y: env.terminal(eqx.tree_at(lambda s: s.y, env.initial(key=jr.key(0)), y), key=jr.key(0)))
+    # CartPole
+    g = gym.make("CartPole-v1").unwrapped
+    g.reset(seed=0)
+    P = dict(gravity=11.0, cart_mass=1.4, pole_mass=0.25, half_length=0.8, force_mag=13.0, theta_threshold_radians=0.3, x_threshold=1.9)
+    g.gravity, g.masscart, g.masspole, g.length, g.force_mag = P["gravity"], P["cart_mass"], P["pole_mass"], P["half_length"], P["force_mag"]
+    g.total_mass, g.polemass_length = g.masspole + g.masscart, g.masspole * g.length
+    g.theta_threshold_radians, g.x_threshold = P["theta_threshold_radians"], P["x_threshold"]
+    env = cc.CartPole(**P)
+    f = field(env)
+    worst, tmis = 0.0, 0
+    for _ in range(n):
+        y = np.array([rng.uniform(-2.4, 2.4), rng.uniform(-3, 3), rng.uniform(-0.4, 0.4), rng.uniform(-3, 3)])
+        for a in (0, 1):
+            g.state = y.copy()
+            g.steps_beyond_terminated = None
+            _, _, t_g, _, _ = g.step(a)
+            fg = (np.asarray(g.state, dtype=np.float64) - y) / g.tau
+            worst = max(worst, _dev(f(env, jnp.asarray(y, jnp.float32), jnp.asarray(a)), fg))
+            tmis += int(bool(term_f(env, jnp.asarray(np.asarray(g.state), jnp.float32))) != bool(t_g))
+    out.append(("CartPole", {"VectorFieldUnderNonDefaultParametersIsGymnasiums": worst <= 1e-4,
+                             "TerminationUnderNonDefaultThresholdsIsGymnasiums": tmis == 0}, {"param_field_dev": worst, "param_termination_mismatches": tmis}))
+    # mountain cars
+    for name, gid, P, attrs in (("MountainCar", "MountainCar-v0", dict(force=0.0014, gravity=0.0031, goal_position=0.35), ("force", "gravity", "goal_position")),
+                                ("ContinuousMountainCar", "MountainCarContinuous-v0", dict(power=0.0021, goal_position=0.3), ("power", "goal_position"))):
+        g = gym.make(gid).unwrapped
+        g.reset(seed=0)
+        for k in attrs:
+            setattr(g, k, P[k])
+        env = getattr(cc, name)(**P)
+        f = field(env)
+        worst, tmis = 0.0, 0
+        for _ in range(n):
+            x, v = rng.uniform(-1.1, 0.55), rng.uniform(-0.03, 0.03)
+            acts = (0, 1, 2) if name == "MountainCar" else tuple(rng.uniform(-1.0, 1.0, size=3))
+            for a in acts:
+                g.state = np.array([x, v], dtype=np.float64)
+                if name == "MountainCar":
+                    _, _, t_g, _, _ = g.step(int(a))
+                    la = jnp.asarray(int(a))
+                else:
+                    _, _, t_g, _, _ = g.step(np.array([a], dtype=np.float32))
+                    la = jnp.asarray(a, jnp.float32)
+                if -1.19 < g.state[0] < 0.59:                      # nothing was clipped: the velocity change is the acceleration
+                    acc = float(g.state[1]) - v
+                    fl = np.asarray(f(env, jnp.asarray([x, v], jnp.float32), la), dtype=np.float64).reshape(-1)
+                    if abs(float(g.state[1])) < 0.0699:
+                        worst = max(worst, abs(fl[1] - acc) * 100)
+                tmis += int(bool(term_f(env, jnp.asarray(np.asarray(g.state), jnp.float32))) != bool(t_g))
+        out.append((name, {"VectorFieldUnderNonDefaultParametersIsGymnasiums": worst <= 1e-3,
+                           "TerminationUnderNonDefaultGoalIsGymnasiums": tmis == 0}, {"param_field_dev_x100": worst, "param_termination_mismatches": tmis}))
+    # Acrobot (Gymnasium hard-codes g = 9.8 inside _dsdt: gravity stays at its default)
+    g = gym.make("Acrobot-v1").unwrapped
+    g.reset(seed=0)
+    P = dict(link_length_1=1.3, link_length_2=0.8, link_mass_1=1.2, link_mass_2=0.7, link_com_pos_1=0.6, link_com_pos_2=0.35, link_moi=1.4)
+    g.LINK_LENGTH_1, g.LINK_LENGTH_2, g.LINK_MASS_1, g.LINK_MASS_2 = P["link_length_1"], P["link_length_2"], P["link_mass_1"], P["link_mass_2"]
+    g.LINK_COM_POS_1, g.LINK_COM_POS_2, g.LINK_MOI = P["link_com_pos_1"], P["link_com_pos_2"], P["link_moi"]
+    env = cc.Acrobot(**P)
+    f = field(env)
+    worst = 0.0
+    for _ in range(n):
+        y = np.array([rng.uniform(-math.pi, math.pi), rng.uniform(-math.pi, math.pi), rng.uniform(-12, 12), rng.uniform(-28, 28)])
+        for a in (0, 1, 2):
+            fg = np.asarray(g._dsdt(np.append(y, g.AVAIL_TORQUE[a])), dtype=np.float64)[:4]
+            worst = max(worst, _dev(f(env, jnp.asarray(y, jnp.float32), jnp.asarray(a)), fg))
+    out.append(("Acrobot", {"VectorFieldUnderNonDefaultParametersIsGymnasiums": worst <= 1e-4}, {"param_field_dev": worst}))
     return out
 
 
